@@ -421,6 +421,42 @@ fn complex_multiplier_modulus() -> Option<String> {
     None
 }
 
+/// C06: the interpolant handed to each callback meets the previous sample at its left end and this sample at its right end
+/// (Radau and BDF through their low-level solve(); tolerance 1e-9 relative: the identities are exact up to rounding)
+fn dense_end_points() -> Option<String> {
+    use ivp::methods::{BDF, RADAU};
+    use ivp::solout::SolOut;
+    struct Osc;
+    impl IVP for Osc { fn ode(&self, t: f64, y: &[f64], d: &mut [f64]) { d[0] = y[1]; d[1] = -y[0] + 0.1 * t.sin(); } }
+    struct Probe { prev: Option<Vec<f64>>, bad: Option<String>, steps: usize }
+    impl SolOut for Probe {
+        fn solout(&mut self, xold: f64, x: &mut f64, y: &mut [f64], interp: Option<&StepInterpolant<'_>>) -> ControlFlag {
+            if let (Some(ip), Some(prev)) = (interp, self.prev.as_ref()) {
+                self.steps += 1;
+                let mut l = vec![0.0; y.len()]; let mut r = vec![0.0; y.len()];
+                ip.interpolate(xold, &mut l); ip.interpolate(*x, &mut r);
+                for j in 0..y.len() {
+                    let sc = 1.0 + y[j].abs() + prev[j].abs();
+                    if self.bad.is_none() && !((l[j] - prev[j]).abs() <= 1e-9 * sc && (r[j] - y[j]).abs() <= 1e-9 * sc) {
+                        self.bad = Some(format!("step {} [{:e}, {:e}] component {}: interpolant({:e}) = {:e} but the previous sample is {:e}; interpolant({:e}) = {:e}, this sample is {:e}", self.steps, xold, *x, j, xold, l[j], prev[j], *x, r[j], y[j]));
+                    }
+                }
+            }
+            self.prev = Some(y.to_vec());
+            ControlFlag::Continue
+        }
+    }
+    for (x0, xe) in [(0.0, 6.0), (6.0, 0.0)] {
+        let mut p = Probe { prev: None, bad: None, steps: 0 };
+        let _ = RADAU::builder().dense_output(true).build().solve(&Osc, x0, &[1.0, 0.0], xe, 1e-6.into(), 1e-9.into(), Some(&mut p));
+        if let Some(b) = p.bad { return Some(format!("RADAU y''=-y+0.1 sin t on [{}, {}]: {}", x0, xe, b)); }
+        let mut p = Probe { prev: None, bad: None, steps: 0 };
+        let _ = BDF::builder().build().solve(&Osc, x0, &[1.0, 0.0], xe, 1e-6.into(), 1e-9.into(), Some(&mut p));
+        if let Some(b) = p.bad { return Some(format!("BDF y''=-y+0.1 sin t on [{}, {}]: {}", x0, xe, b)); }
+    }
+    None
+}
+
 fn main() {
     let which = std::env::args().nth(1).unwrap_or_default();
     let r = match which.as_str() {
@@ -431,6 +467,7 @@ fn main() {
         "default_mass" => default_mass(),
         "matrix_dense_model" => matrix_dense_model(),
         "lu_small" => lu_small(),
+        "dense_end_points" => dense_end_points(),
         "complex_multiplier_modulus" => complex_multiplier_modulus(),
         "rk4_overshoot" => rk4_overshoot(),
         "counters" => counters(),
